@@ -413,9 +413,55 @@ func main() {
 			r.stats["gen-deviate-mode"]++
 		}
 		r.stats[fmt.Sprintf("gen-depth-%d", d)]++
+		s.walk(func(x *S) { countKeywords(r.stats, x) })
 		insts := g.instances(s, ninst)
+		for _, j := range insts {
+			r.stats["inst-kind-"+string(j.K)]++
+		}
 		r.runCase(s, insts, true)
 	}
+}
+
+// countKeywords records the keyword mix of the generated schemas (evidence).
+func countKeywords(st map[string]int, x *S) {
+	if x.IsBool {
+		if x.B {
+			st["kw-true"]++
+		} else {
+			st["kw-false"]++
+		}
+		return
+	}
+	st["kw-(schema objects)"]++
+	add := func(c bool, k string) {
+		if c {
+			st["kw-"+k]++
+		}
+	}
+	add(x.HasType, "type")
+	add(x.HasEnum, "enum")
+	add(x.Const != nil, "const")
+	add(x.MultipleOf != nil, "multipleOf")
+	add(x.Min != nil || x.Max != nil || x.XMin != nil || x.XMax != nil, "numeric-bounds")
+	add(x.MinLength != nil || x.MaxLength != nil, "min/maxLength")
+	add(x.Pattern != nil, "pattern")
+	add(x.MinProps != nil || x.MaxProps != nil, "min/maxProperties")
+	add(x.MinItems != nil || x.MaxItems != nil, "min/maxItems")
+	add(x.Unique != nil, "uniqueItems")
+	add(x.HasRequired, "required")
+	add(x.Ref != nil, "$ref")
+	add(x.HasAllOf, "allOf")
+	add(x.HasAnyOf, "anyOf")
+	add(x.HasOneOf, "oneOf")
+	add(x.Not != nil, "not")
+	add(x.If != nil, "if")
+	add(x.HasProps, "properties")
+	add(x.HasPProps, "patternProperties")
+	add(x.PNames != nil, "propertyNames")
+	add(x.HasPrefix, "prefixItems")
+	add(x.Contains != nil, "contains")
+	add(x.Addl != nil, "additionalProperties")
+	add(x.Items != nil, "items")
 }
 
 // runCorpus replays the hand-written regression cases: one JSON object per line.
